@@ -505,7 +505,7 @@ impl TransformerContext {
             let id = eval_attr(&id, self).unwrap_or(id);
             #[cfg(feature = "verif")]
             crate::verif::registered(&id, !self.elem_map.contains_key(&id));
-            if matches!(el.bbox(), Ok(Some(_))) {
+            if matches!(self.get_element_bbox(el), Ok(Some(_))) {
                 self.settled_ids.insert(id.clone());
             }
             self.known_ids.insert(id.clone());
